@@ -270,7 +270,8 @@ impl SatSolver for Chooser {
                 fixed.push(lit);
                 continue;
             }
-            if extra >= self.budget {
+            // large formulas: fewer re-solves per reported model
+            if extra >= self.budget.min((4_000 / nv).max(4)) {
                 break;
             }
             extra += 1;
